@@ -36,7 +36,14 @@ def compute(desc):
         g = SCFG({n: BasicBlock(n, tuple(s)) for n, s in zip(desc["names"], desc["succ"])})
         for st in desc.get("stages", ["restructure"]):
             getattr(g, st)()
-        return json.dumps([dump(g), list(g.name_gen.kinds.items())])
+        out = [dump(g), list(g.name_gen.kinds.items())]
+        # writer / reader: dictionary (insertion order included), YAML text, re-read graph
+        d = g.to_dict()
+        out.append(json.dumps(d, sort_keys=False, default=str))
+        out.append(g.to_yaml())
+        g2, _ = SCFG.from_dict(d)
+        out.append(dump(g2))
+        return json.dumps(out)
     if kind == "source":
         from numba_scfg.core.datastructures.ast_transforms import AST2SCFG, SCFG2AST
 
